@@ -36,6 +36,8 @@ structure Quirks where
   retFlatNames : Bool := false
   /-- `decode_output(int)`: the digits of `bin()` are padded on the right -/
   formatOutcomeIntPadRight : Bool := false
+  /-- `DeutschJozsa.decode_output` compares the decoded *value* with `0` -/
+  djDecodeEqZero : Bool := false
   deriving Repr, DecidableEq, Inhabited
 
 def Quirks.none : Quirks := {}
@@ -55,5 +57,6 @@ def Quirks.ofList (l : List String) : Quirks :=
     cseHoistsOverBindings := l.contains "cseHoistsOverBindings" }
     retFlatNames := l.contains "retFlatNames"
     formatOutcomeIntPadRight := l.contains "formatOutcomeIntPadRight" }
+    djDecodeEqZero := l.contains "djDecodeEqZero" }
 
 end QV
